@@ -8,7 +8,7 @@ from .common import pp, Inst, patched
 
 PROPERTY = "C34"
 LEVEL = "model_checking"
-FUNCTIONS = [("pandapower.run", "runpp"), ("pandapower.run", "_passed_runpp_parameters"),
+FUNCTIONS = [("pandapower.run", "runpp"), ("pandapower.pf.runpp_3ph", "runpp_3ph"), ("pandapower.run", "_passed_runpp_parameters"),
              ("pandapower.auxiliary", "_init_runpp_options"), ("pandapower.auxiliary", "_add_ppc_options"),
              ("pandapower.auxiliary", "_add_pf_options")]
 STUBS = ["pandapower.run._powerflow -> no-op (the prologue, locals(), _passed_runpp_parameters and _init_runpp_options are real)"]
@@ -16,7 +16,7 @@ ASSUMPTIONS = ["numeric parameters (tolerance_mva, max_iteration, delta_q, switc
                "string/bool parameters are chosen by a symbolic selector whose branches the solver enumerates",
                "the value that counts is net._options[<option key>] at the point where _powerflow is entered"]
 OUTSIDE = ["init / init_vm_pu / init_va_degree (mapped to two derived options)", "recycle, tdpf*, run_control, lightsim2grid",
-           "rundcpp/runopp/runpp_3ph (the property names runpp)"]
+           "rundcpp/runopp (the property names runpp; runpp_3ph shares the helper _passed_runpp_parameters and is included for 8 parameters)"]
 BOUNDS = {"quick": "one parameter at a time (15 parameters) + 3 two-parameter combinations + 2-call history",
           "thorough": "same + all unordered pairs of the 15 parameters"}
 
@@ -130,6 +130,52 @@ def make_fn(params, history=False):
     return fn
 
 
+class _Stop3(Exception):
+    pass
+
+
+P3_NUM = {"tolerance_mva": "tolerance_mva", "switch_rx_ratio": "switch_rx_ratio", "max_iteration": "max_iteration"}
+P3_DISC = {"trafo_loading": ("trafo_loading", ["current", "power"]), "calculate_voltage_angles": ("calculate_voltage_angles", [True, False]),
+           "enforce_q_lims": ("enforce_q_lims", [False, True]), "check_connectivity": ("check_connectivity", [True, False]),
+           "v_debug": ("v_debug", [False, True])}
+
+
+def make_3ph(p):
+    """the same precedence rule through runpp_3ph, which shares _passed_runpp_parameters (its own named arguments included)"""
+    defaults = _defaults()
+
+    def fn(ctx):
+        r3 = ctx.load("pandapower.pf.runpp_3ph")
+        net = _net()
+        dom = None if p in P3_NUM else P3_DISC[p][1]
+        val = (lambda tag: ctx.var(f"{tag}_{p}", 1., 100.) if p == "max_iteration" else ctx.var(f"{tag}_{p}", 1e-12, 100.)) if dom is None \
+            else (lambda tag: _select(ctx, f"{tag}_{p}", dom))
+        stored, passed = val("stored"), val("passed")
+        stored_b = _select(ctx, "stored_trafo_loading" if p != "trafo_loading" else "stored_check_connectivity",
+                           P3_DISC["trafo_loading" if p != "trafo_loading" else "check_connectivity"][1])
+        bystander = "trafo_loading" if p != "trafo_loading" else "check_connectivity"
+        net.user_pf_options = {p: stored, bystander: stored_b}
+
+        def stop(net_):
+            raise _Stop3()
+        with patched(r3, _check_bus_index_and_print_warning_if_high=stop):
+            try:
+                r3.runpp_3ph(net, **{p: passed})
+            except _Stop3:
+                pass
+        opts = net._options
+        okey = P3_NUM[p] if p in P3_NUM else P3_DISC[p][0]
+        dflt = defaults.get(p, None)           # the helper compares with the defaults of runpp
+        if hasattr(passed, "v"):
+            is_default = bool(passed == dflt) if (dflt is not None and not isinstance(dflt, str)) else False
+        else:
+            is_default = (p in defaults) and (passed == dflt if not isinstance(passed, float) else (not isinstance(dflt, str) and dflt is not None and float(passed) == float(dflt)))
+        tag = "passed_equal_to_default_wins" if is_default else "passed_wins"
+        _same(ctx, f"{tag}/{p}", opts[okey], passed)
+        _same(ctx, f"stored_applies_when_not_passed/{bystander}", opts[bystander], stored_b)
+    return fn
+
+
 def instances(tier):
     out = []
     plist = list(NUM) + list(DISC)
@@ -141,6 +187,8 @@ def instances(tier):
     for a, b in pairs:
         out.append(Inst(f"pair_{a}_{b}", make_fn([a, b]), nvars=10, meta=dict(parameters=[a, b]), samples=1,
                         raises=(NotImplementedError, ValueError)))
+    for p3 in list(P3_NUM) + list(P3_DISC):
+        out.append(Inst(f"runpp_3ph_one_{p3}", make_3ph(p3), nvars=8, meta=dict(entry="runpp_3ph", parameters=[p3]), samples=2))
     out.append(Inst("history_tolerance_mva", make_fn(["tolerance_mva"], history=True), nvars=10, meta=dict(parameters=["tolerance_mva"], calls=2), samples=1))
     out.append(Inst("history_algorithm", make_fn(["algorithm"], history=True), nvars=10, meta=dict(parameters=["algorithm"], calls=2), samples=1))
     return out
